@@ -1,3 +1,4 @@
+from copy import deepcopy
 from typing import Sequence
 
 import numpy as np
@@ -120,12 +121,12 @@ class CPCCARotator(CPCCA):
         )
 
     def _fit_algorithm(self, model) -> Self:
-        self.preprocessor1 = model.preprocessor1
-        self.preprocessor2 = model.preprocessor2
-        self.pca1 = model.pca1
-        self.pca2 = model.pca2
-        self.whitener1 = model.whitener1
-        self.whitener2 = model.whitener2
+        self.preprocessor1 = deepcopy(model.preprocessor1)
+        self.preprocessor2 = deepcopy(model.preprocessor2)
+        self.pca1 = deepcopy(model.pca1)
+        self.pca2 = deepcopy(model.pca2)
+        self.whitener1 = deepcopy(model.whitener1)
+        self.whitener2 = deepcopy(model.whitener2)
         self.sample_name = model.sample_name
         self.feature_name = model.feature_name
         self.sorted = False
